@@ -343,7 +343,13 @@ def strategy(tier):
             ops += [call(k), {"o": "adv", "dt": gap}]
         # now: first key's age = limit*gap; advance so that only the first one (or the first few) is expired
         ops.append({"o": "adv", "dt": draw(st.sampled_from([exp - (limit - 1) * gap, exp - limit * gap + 0.125, 0.125, exp]))})
-        ops += [call(keys[0]), call(keys[limit]), call(keys[0])]
+        # the expired oldest key is recomputed while the cache is full, then either a NEW key forces an eviction (the
+        # recomputed key is now the most recent and must survive) or the other LIVE keys are called again (refreshing
+        # an expired key must not have cost a live one its place)
+        if draw(st.booleans()):
+            ops += [call(keys[0]), call(keys[limit]), call(keys[0])]
+        else:
+            ops += [call(keys[0])] + [call(k) for k in keys[1:limit]] + [call(keys[0])]
         if draw(st.booleans()):
             ops.insert(draw(st.integers(0, len(ops))), {"o": "drop", "r": 0})
         ops += draw(st.lists(st.sampled_from([call(k) for k in keys] + [{"o": "adv", "dt": 0.5}]), max_size=6))
